@@ -31,6 +31,8 @@ cmp -s "$ROOT/build/gen/NewPoly_gen.v" "$ROOT/coq/Gen/NewPoly_gen.v" || cp "$ROO
 cmp -s "$ROOT/build/gen/Kernels_gen.v" "$ROOT/coq/Gen/Kernels_gen.v" || cp "$ROOT/build/gen/Kernels_gen.v" "$ROOT/coq/Gen/Kernels_gen.v"
 "$ROOT/build/vh" kernels2 -out "$ROOT/build/gen/kernels2" "$ROOT/build/gen/Kernels2_gen.v" >/dev/null || exit 1
 cmp -s "$ROOT/build/gen/Kernels2_gen.v" "$ROOT/coq/Gen/Kernels2_gen.v" || cp "$ROOT/build/gen/Kernels2_gen.v" "$ROOT/coq/Gen/Kernels2_gen.v"
+"$ROOT/build/vh" fingerprints -out "$ROOT/build/gen/fingerprints" "$ROOT/build/gen/Fingerprints_gen.v" >/dev/null || exit 1
+cmp -s "$ROOT/build/gen/Fingerprints_gen.v" "$ROOT/coq/Gen/Fingerprints_gen.v" || cp "$ROOT/build/gen/Fingerprints_gen.v" "$ROOT/coq/Gen/Fingerprints_gen.v"
 cd "$ROOT/coq"
 if [ ! -f Makefile ] || [ _CoqProject -nt Makefile ]; then
   coq_makefile -f _CoqProject -o Makefile >/dev/null
